@@ -168,8 +168,15 @@ Section Guard.
         (* no name conflict: nothing q exports is already visible in p under the same name *)
         mem p P && mem q P &&
         forallb (fun n =>
-          (match own_v s q n with Some a => negb (s_vexp s a) || opt_addr_eqb (resolve_v s p n) None | None => true end) &&
-          (match own_f s q n with Some a => negb (s_fexp s a) || opt_addr_eqb (resolve_f s p n) None | None => true end)) NM
+          (match own_v s q n with
+           | Some a => negb (s_vexp s a) || opt_addr_eqb (resolve_v s p n) None
+           | None => (* Package.Use also copies what q merely inherits: only harmless when p sees it already *)
+                     match resolve_v s q n with Some a => opt_addr_eqb (resolve_v s p n) (Some a) | None => true end
+           end) &&
+          (match own_f s q n with
+           | Some a => negb (s_fexp s a) || opt_addr_eqb (resolve_f s p n) None
+           | None => match resolve_f s q n with Some a => opt_addr_eqb (resolve_f s p n) (Some a) | None => true end
+           end)) NM
     | OUnuse _ _ => false      (* Package.Unuse rebuilds from the used packages only: known finding *)
     | OExport n p =>
         mem p P &&
